@@ -1,7 +1,7 @@
 ---- MODULE ExportFault ----
 EXTENDS SpyneFault, Json, IOUtils, SequencesExt
 ASSUME TableSane
-ASSUME JsonSerialize(IOEnv.OUT_FILE, SetToSeq(Cases))
+ASSUME JsonSerialize(IOEnv.OUT_FILE, SetToSeq(IF IOEnv.FAMILY = "thorough" THEN CasesThorough ELSE Cases))
 VARIABLE x
 Init == x = 0
 Next == UNCHANGED x
